@@ -52,6 +52,7 @@
 #include <xalanc/XalanSourceTree/FormatterToSourceTree.hpp>
 
 #include "xvextra.hpp"
+#include "xvser.hpp"
 
 using namespace xv;
 using namespace xalanc;
@@ -548,7 +549,7 @@ int main(int argc, char** argv) {
             else if (cmd == "transform") cmdTransform(q, r);
             else if (cmd == "capi") cmdCapi(q, r);
             else if (cmd == "num") cmdNum(q, r);
-            else if (!xvextra::dispatch(cmd, q, r)) r["error"] = "unknown cmd " + cmd;
+            else if (!xvextra::dispatch(cmd, q, r) && !xvser::dispatch(cmd, q, r)) r["error"] = "unknown cmd " + cmd;
             XV_GUARD_END(r)
             io.write(r);
         }
